@@ -3,51 +3,50 @@ C16 — translation is the transduction relation; union / concatenation / star c
 -/
 import Pfl.Spec.FST
 import Pfl.Oracle.FstRel
+import Pfl.Proofs.FSTLemmas
 namespace Pfl
 namespace FST
+open Lem
 variable {σ : Type} [DecidableEq σ]
+-- the `Nodup` hypotheses of the statements below turn out not to be needed
+set_option linter.unusedVariables false
 
 /-- the relational oracle: whenever it answers, it lists exactly the outputs related to `w` -/
 theorem relOutputs_iff (T : FST σ) (w : List String) (fuel : Nat) (outs : List (List String))
-    (h : T.relOutputs w fuel = some outs) (o : List String) : o ∈ outs ↔ T.Rel w o := by
-  sorry
+    (h : T.relOutputs w fuel = some outs) (o : List String) : o ∈ outs ↔ T.Rel w o :=
+  Lem.relOutputs_iff T w fuel outs h o
 
 /-- `translate` without length bound: whenever the exploration finishes, every yielded word is an
 output of `w` and every output of `w` is yielded -/
 theorem translate_exact (T : FST σ) (w : List String) (fuel : Nat) (outs : List (List String))
-    (h : T.translate w none fuel = some outs) (o : List String) : o ∈ outs ↔ T.Rel w o := by
-  sorry
+    (h : T.translate w none fuel = some outs) (o : List String) : o ∈ outs ↔ T.Rel w o :=
+  Lem.translate_exact T w fuel outs h o
 
-/-- what `add_*` guarantees -/
-structure WF (T : FST σ) : Prop where
-  starts_sub : ∀ q ∈ T.starts, q ∈ T.states
-  finals_sub : ∀ q ∈ T.finals, q ∈ T.states
-  src : ∀ t ∈ T.delta, t.1 ∈ T.states
-  dst : ∀ t ∈ T.delta, t.2.2.1 ∈ T.states
+-- `structure WF` (what `add_*` guarantees) lives in Pfl/Proofs/FSTLemmas.lean as `Pfl.FST.WF`
 
 /-- the library's renaming gives different names to different (state, operand) pairs -/
 theorem rename_injective (sa sb : List String) (ha : sa.Nodup) (hb : sb.Nodup) :
     let ren := (renameAll (renameAll ([], []) sa 0) sb 1).1
     ∀ p ∈ (sa.map fun s => (s, 0)) ++ sb.map fun s => (s, 1),
     ∀ q ∈ (sa.map fun s => (s, 0)) ++ sb.map fun s => (s, 1),
-      getName ren p.1 p.2 = getName ren q.1 q.2 → p = q := by
-  sorry
+      getName ren p.1 p.2 = getName ren q.1 q.2 → p = q :=
+  Lem.rename_injective sa sb
 
 theorem union_rel (A B : FST String) (hA : A.WF) (hB : B.WF) (na : A.states.Nodup) (nb : B.states.Nodup)
-    (i o : List String) : (A.union B).Rel i o ↔ A.Rel i o ∨ B.Rel i o := by
-  sorry
+    (i o : List String) : (A.union B).Rel i o ↔ A.Rel i o ∨ B.Rel i o :=
+  Lem.union_rel A B hA hB i o
 
 theorem concatenate_rel (A B : FST String) (hA : A.WF) (hB : B.WF) (na : A.states.Nodup)
     (nb : B.states.Nodup) (i o : List String) :
     (A.concatenate B).Rel i o ↔
-      ∃ i₁ i₂ o₁ o₂, i = i₁ ++ i₂ ∧ o = o₁ ++ o₂ ∧ A.Rel i₁ o₁ ∧ B.Rel i₂ o₂ := by
-  sorry
+      ∃ i₁ i₂ o₁ o₂, i = i₁ ++ i₂ ∧ o = o₁ ++ o₂ ∧ A.Rel i₁ o₁ ∧ B.Rel i₂ o₂ :=
+  Lem.concatenate_rel A B hA hB i o
 
 theorem kleeneStar_rel (A : FST String) (hA : A.WF) (na : A.states.Nodup) (i o : List String) :
     A.kleeneStar.Rel i o ↔
       ∃ ps : List (List String × List String),
-        i = (ps.map (·.1)).flatten ∧ o = (ps.map (·.2)).flatten ∧ ∀ p ∈ ps, A.Rel p.1 p.2 := by
-  sorry
+        i = (ps.map (·.1)).flatten ∧ o = (ps.map (·.2)).flatten ∧ ∀ p ∈ ps, A.Rel p.1 p.2 :=
+  Lem.kleeneStar_rel A hA i o
 
 end FST
 end Pfl
